@@ -311,6 +311,9 @@ class C17Engine(Engine):
         a, aout, aerr, aerror = side(True)
         b, bout, berr, berror = side(False)
         error = aerror or berror
+        if aerror and aerror.startswith("LIB:"):
+            return {"violations": [{"props": ["C17"], "clause": "library/undocumented-exception-escaped", "detail": aerror[4:], "opno": 0}],
+                    "labels": sorted(labels), "stats": {}, "inconclusive": None, "error": None}
         if error or a is None or b is None:
             return {"violations": [], "labels": sorted(labels), "stats": {}, "inconclusive": None, "error": error or "no result"}
         if "handshake_error" in a:
